@@ -190,7 +190,56 @@ fn run_sink(k: usize) -> Vec<String> {
     errs
 }
 
+/// case 81: `Arc::<T>::default()` with a `Default` impl that panics: the panic propagates, no block is left, no value
+/// exists that could be destroyed
+fn run_default_panic() -> Vec<String> {
+    struct DefaultPanic;
+    #[allow(dead_code)]
+    struct Dp(A);
+    impl Default for Dp {
+        fn default() -> Dp {
+            std::panic::panic_any(DefaultPanic)
+        }
+    }
+    let tag = "Arc::default with a panicking Default impl";
+    let mut errs = vec![];
+    alloc::reset();
+    ev::LOG.clear();
+    alloc::track(true);
+    let r = catch_unwind(AssertUnwindSafe(|| {
+        let a: Arc<Dp> = Default::default();
+        a
+    }));
+    alloc::track(false);
+    match r {
+        Err(p) if p.is::<DefaultPanic>() => drop(p),
+        Err(p) => {
+            errs.push(format!("[panicked] {}: a different panic came out", tag));
+            drop(p);
+        }
+        Ok(a) => {
+            errs.push(format!("[panicked] {}: the impl's panic was swallowed", tag));
+            std::mem::forget(a);
+        }
+    }
+    for e in ev::drain() {
+        match e {
+            Ev::Drop { .. } => errs.push(format!("[drops] {}: a destructor ran although no value was made", tag)),
+            Ev::BadDrop { .. } => errs.push(format!("[baddrop] {}: destructor ran on something that is not a live object", tag)),
+            _ => {}
+        }
+    }
+    if alloc::table().iter().any(|r| r.live && r.size < 200) {
+        errs.push(format!("[leak] {}: a block is still allocated after the propagated panic", tag));
+    }
+    alloc::reset();
+    errs
+}
+
 fn run_observer(k: usize) -> Vec<String> {
+    if k > 80 {
+        return run_default_panic();
+    }
     if k > 48 {
         return run_sink(k - 48);
     }
